@@ -304,8 +304,8 @@ Definition ptr_match (checkdom : bytes) (v : bytes) : bool :=
   let dlen := length v in
   let dslen := length checkdom in
   if Nat.ltb dlen dslen then false
-  else if Nat.eqb dlen dslen then bytes_eqb v checkdom
-  else (nth (dlen - dslen - 1) v 0 =? 46) && bytes_eqb (skipn (dlen - dslen) v) checkdom.
+  else if Nat.eqb dlen dslen then ci_eqb v checkdom
+  else (nth (dlen - dslen - 1) v 0 =? 46) && ci_eqb (skipn (dlen - dslen) v) checkdom.
 
 Definition spfptr (domain tok : bytes) : Cres (Z * list qev) :=
   let m := may_have_domainspec tok in
